@@ -25,7 +25,10 @@ def step (line : String) : String :=
   -- `q<den>`: the C++ runs on the coordinates divided by den and reports volumes times den^m; by homogeneity and
   -- scale invariance (Lemmas/Scale.lean, Lemmas/RatLift.lean) that is the line computed on the integer numerators
   let toks := match toks0 with
-    | t :: rest => if t.startsWith "q" && t.length > 1 then rest else toks0
+    | t :: rest =>
+      -- `e<k>`: scale class 2^k applied to points and reference in the C++ (volumes reported divided by 2^(k*m)): by
+      -- rankSpec_scale / hvSpec_scale_shift / hvQ_scale the line of the unscaled integers
+      if (t.startsWith "q" || t.startsWith "e" || t.startsWith "t") && t.length > 1 && ((t.drop 1).toString.toInt?).isSome then rest else toks0
     | [] => toks0
   match toks with
   | [] => ""
